@@ -132,7 +132,10 @@ def classify(case, info):
     return nontrivial, labels
 
 
-def extractor_specs():
+def extractor_specs(allow_none=False):
+    """allow_none: also extractors that return None.  What is logged for those is not specified anywhere (the
+    unchanged tree treats them like a raising extractor); only checks that judge "nothing raises, the exception
+    propagates" use them, not the ones that compare the log with the model."""
     beh = st.one_of(
         st.builds(lambda x: {"fields": {"x": x}}, st.integers(0, 9)),
         st.builds(lambda x, y: {"fields": {"x": x, "y": [y]}}, st.integers(0, 9), st.text(max_size=3)),
@@ -143,9 +146,9 @@ def extractor_specs():
         st.builds(lambda x, y: {"fields": {"x": x, "y": [y]}, "persistent": True}, st.integers(0, 9), st.text(max_size=3)),
 
         st.sampled_from(RAISABLE).map(lambda i: {"raise": i}),
-        # extractors that fail by what they return rather than by raising
-        st.just({"none": True}),
+        # extractors that fail while their result is being read rather than in the call
         st.sampled_from(RAISABLE).map(lambda i: {"raise": i, "lazy": True}),
+        *([st.just({"none": True})] if allow_none else [])
     )
     general = st.lists(st.tuples(st.integers(0, len(EXTRACTOR_CLASSES) - 1), beh).map(list), max_size=5)
     # registrations on the broad base classes hit every failing action: keep them frequent
